@@ -18,12 +18,13 @@ func (e StdEng) Transpose(a Tensor, expStrides []int) error {
 }
 
 func (e StdEng) denseTranspose(a DenseTensor, expStrides []int) {
+	// the mask moves with the data, whatever the element type
+	e.transposeMask(a)
+
 	if a.rtype() == String.Type {
 		e.denseTransposeString(a, expStrides)
 		return
 	}
-
-	e.transposeMask(a)
 
 	switch a.rtype().Size() {
 	case 1:
